@@ -29,7 +29,8 @@ def make_column(kind, n, rs: np.random.Generator):
     if kind == "int_uniq":
         return rs.permutation(n)
     if kind == "int_mono":
-        return np.sort(rs.integers(0, max(4, n), size=n))
+        # strictly increasing: any row-wise partitioning of it is presorted with non-overlapping ranges
+        return np.sort(rs.permutation(2 * n)[:n])
     if kind == "float":
         return rs.integers(-8, 24, size=n) / 4.0
     if kind == "float_nan":
